@@ -308,10 +308,23 @@ pub fn fill_info(info: &mut siginfo_t, sig: c_int, id: i32) {
         *b = if i < 24 { 0 } else { (id as u32).wrapping_mul(31).wrapping_add(i as u32 * 7) as u8 | 1 };
     }
     info.si_signo = sig;
-    info.si_code = libc::SI_USER;
+    info.si_code = code_of(id);
     unsafe {
         *((info as *mut siginfo_t as *mut i32).add(4)) = id;
         *((info as *mut siginfo_t as *mut u32).add(5)) = info_uid(id);
+    }
+}
+
+/// `si_code` of simulated delivery `id`: mostly SI_USER, some SI_QUEUE, and some small positive
+/// codes - what fcntl(F_SETSIG) or rt_sigqueueinfo attach to arbitrary signals; numerically they
+/// coincide with the CLD_* codes, which mean a child only for SIGCHLD.
+pub fn code_of(id: i32) -> i32 {
+    if id.rem_euclid(5) == 2 {
+        1 + (id / 5).rem_euclid(6)
+    } else if id.rem_euclid(11) == 7 {
+        libc::SI_QUEUE
+    } else {
+        libc::SI_USER
     }
 }
 
@@ -345,6 +358,11 @@ pub fn sim_deliver(sig: c_int, solo: bool) {
     info.si_signo = sig;
     info.si_code = libc::SI_USER;
     fill_info(&mut info, sig, id as i32);
+    if cur.sa_flags & libc::SA_SIGINFO == 0 {
+        // a handler installed without SA_SIGINFO gets no record from the kernel: whatever it finds
+        // where a record would be is stale stack memory
+        unsafe { std::ptr::write_bytes(&mut info as *mut siginfo_t as *mut u8, 0x5A, std::mem::size_of::<siginfo_t>()) };
+    }
     let ctx = (0x5150_0000usize + id as usize) as *mut c_void;
     let target = if h == registry::verif::handler_addr() {
         1
